@@ -22,9 +22,9 @@ Proof. exact skip_refines_omap. Qed.
 Print Assumptions c02_skip_refines_omap.
 
 (* SkipListWithCmp, from the zero value, for sequences in scope (cmp_scope: before the first Init no Set/SetNx —
-   there is no comparator yet — and no RangeWithStart/RangeWithRange on the untouched zero value, finding F13) *)
+   there is no comparator yet; every read, Clear, SetX, Remove, RangeWithStart/RangeWithRange included, is in scope) *)
 Theorem c02_skipcmp_refines_omap : forall (K V : Type) (cmp : K -> K -> comparison) (v0 : V), total_order K cmp ->
-  forall (ops : list (op K V)) (rnd : list Z), cmp_scope K V false ops = true ->
+  forall (ops : list (op K V)) (rnd : list Z), cmp_scope K V ops = true ->
   exists rs, run K V cmp v0 WithCmp zero ops rnd = Some rs /\ map (erase K V) rs = map (erase K V) (s_run K V cmp [] ops).
 Proof. exact skipcmp_refines_omap. Qed.
 Print Assumptions c02_skipcmp_refines_omap.
